@@ -131,12 +131,18 @@ func run(policy string, h History) (clause, detail string) {
 					open = append(open, s)
 				}
 			}
+			msg := message.RpcMessage{ID: 1, Type: message.GettyRequestTypeRequestSync, Codec: byte(codec.CodecTypeSeata), Body: body(x)}
+			var got getty.Session
+			if p := catchPanic(func() { got = sgetty.VerifSelectSession(msg) }); p != "" {
+				return "selection-panics", fmt.Sprintf("step %d: selecting a session for xid %q with %d open session(s) panicked: %s", step, x, len(open), p)
+			}
 			if len(open) == 0 {
-				// selection with no open session waits for one (checkAlive ticker): not driven here
+				// no open session: the selection polls for one (the polling loop runs through at once here) and ends with nil
+				if gs, ok := got.(*sess); ok && gs != nil {
+					return "closed-session-chosen", fmt.Sprintf("step %d: no session is open, yet session %d (%s, closed=%v) was chosen", step, gs.id, gs.addr, gs.IsClosed())
+				}
 				continue
 			}
-			msg := message.RpcMessage{ID: 1, Type: message.GettyRequestTypeRequestSync, Codec: byte(codec.CodecTypeSeata), Body: body(x)}
-			got := sgetty.VerifSelectSession(msg)
 			if got == nil {
 				return "nil-although-open", fmt.Sprintf("step %d: %d open session(s) are registered but none was chosen", step, len(open))
 			}
@@ -306,7 +312,16 @@ func waitingSelection(r *rep.Run, policy string) {
 			vtime.AutoTick = false
 			msg := message.RpcMessage{ID: 1, Type: message.GettyRequestTypeRequestSync, Codec: byte(codec.CodecTypeSeata), Body: body(xids[x])}
 			done := make(chan getty.Session, 1)
-			go func() { done <- sgetty.VerifSelectSession(msg) }()
+			panicked := make(chan string, 1)
+			go func() {
+				defer func() {
+					if p := recover(); p != nil {
+						panicked <- fmt.Sprint(p)
+						done <- nil
+					}
+				}()
+				done <- sgetty.VerifSelectSession(msg)
+			}()
 			quiet.Spin(func() bool { return len(done) > 0 }, 3) // now parked at the ticker
 			dead := &sess{id: 0, addr: addrs[0], closed: true}
 			dead2 := &sess{id: 2, addr: addrs[1], closed: true}
@@ -338,6 +353,12 @@ func waitingSelection(r *rep.Run, policy string) {
 			vtime.SetPassThrough()
 			r.Eval(true)
 			r.Count("waiting_selection_cases", 1)
+			select {
+			case p := <-panicked:
+				r.Violate("selection-panics/"+policy, clauseA, Located{policy, h}, "a selection started with no session registered panicked: "+p)
+				continue
+			default:
+			}
 			if !returned {
 				r.Violate("waiting-selection-never-returns/"+policy, clauseA, Located{policy, h}, "an open session was registered while the selection waited; twelve polls later it still has not returned")
 				continue
@@ -349,6 +370,16 @@ func waitingSelection(r *rep.Run, policy string) {
 			}
 		}
 	}
+}
+
+func catchPanic(f func()) (p string) {
+	defer func() {
+		if r := recover(); r != nil {
+			p = fmt.Sprint(r)
+		}
+	}()
+	f()
+	return ""
 }
 
 // ringSweep: many selections in a row on one registry, for xids spread over the whole hash ring (a selection whose key
